@@ -27,6 +27,8 @@ import PV.Spec.Flatten
 import PV.Gen.Flatten
 import PV.Spec.FirstOcc
 import PV.Spec.Base64
+import PV.Model.Cleaning
+import PV.Model.CleaningThresholds
 /-
 One function per unit: `List String` (the operation's arguments) to one output line.
 -/
@@ -554,6 +556,45 @@ def zU (op : String) (args : List String) : String :=
     | _, _ => "bad-op"
   | _, _ => "bad-op"
 
+
+/-! simple_cleaning (C18): `clean.filter <minChars> <run> <mci n/d> <minpunct n/d> <sample> <scripts csv|-> <minscripts n/d>
+    <fspec hex> <delim hex> <table cp:script|x:punct:space,...|-> <input hex>` -/
+def parseRatio (s : String) : Option PV.Cleaning.Ratio :=
+  match s.splitOn "/" with
+  | [a, b] => match a.toNat?, b.toNat? with
+    | some a, some b => some ⟨a, b⟩
+    | _, _ => none
+  | _ => none
+
+def parseClassTable (s : String) : Option (List (Nat × Option Nat × Bool × Bool)) :=
+  if s == "-" then some [] else
+  (s.splitOn ",").mapM (fun e =>
+    match e.splitOn ":" with
+    | [c, sc, p, sp] =>
+      match c.toNat? with
+      | some c => some (c, sc.toNat?, p == "1", sp == "1")
+      | none => none
+    | _ => none)
+
+def cleanU (op : String) (args : List String) : String :=
+  match op, args with
+  | "filter", [mc, run, mci, mp, sample, scr, ms, f, d, tab, h] =>
+    match mc.toNat?, run.toNat?, parseRatio mci, parseRatio mp, sample.toNat?, parseRatio ms, toolRanges f, unhex d, parseClassTable tab, unhex h with
+    | some mc, some run, some mci, some mp, some sample, some ms, some rs, some [dl], some table, some input =>
+      let scripts := if scr == "-" then [] else (scr.splitOn ",").filterMap String.toNat?
+      let look (c : Nat) := table.find? (fun e => e.1 == c)
+      let t : PV.Cleaning.Thresholds := { maxCommonInherited := mci, minPunct := mp, minPunctSample := sample, scripts := scripts, minScripts := ms }
+      let p : PV.Cleaning.Params :=
+        { minChars := mc, run := run,
+          scriptOf := fun c => match look c with | some e => e.2.1 | none => none,
+          isPunct := fun c => match look c with | some e => e.2.2.1 | none => false,
+          isSpace := fun c => match look c with | some e => e.2.2.2 | none => false,
+          thresholds := PV.Cleaning.ratThresholds t }
+      s!"ok {unl (PV.Cleaning.filter p rs dl (recs input))}"
+    | _, _, _, _, _, _, none, _, _, _ => "ERR:badfield"
+    | _, _, _, _, _, _, _, _, _, _ => "bad-op"
+  | _, _ => "bad-op"
+
 def dispatch (line : String) : String :=
   match words line with
   | [] => "bad-op"
@@ -582,6 +623,7 @@ def dispatch (line : String) : String :=
     | ["murmur", "spec", op] => murmur ("spec." ++ op) args
     | ["fields", op] => fields op args
     | ["fields", "spec", op] => fields ("spec." ++ op) args
+    | ["clean", op] => cleanU op args
     | ["table", op] => table op args
     | ["table", "spec", op] => table ("spec." ++ op) args
     | ["b64", "spec", op] => b64 ("spec." ++ op) args
